@@ -31,7 +31,7 @@ FIXED = True
 MANIFEST = dict(
     level="other", design_ref="DESIGN.md 8 (C19), 7 (TimeArith), 10",
     technique="TLA+ definitions of clock-time arithmetic, Mapping::map and integer-power easings in exact fixed point (TimeArith.tla) tabulated and law-checked by TLC over a grid; TLC-generated case tables plus seeded boundary-biased sweeps evaluated on the real public operators/functions; TLC trace validation of every recorded evaluation against the property-level monitor P_C19",
-    text="Clock-time arithmetic, Mapping::map clamping, integer-power easings (power 1..3) and ClockSpeed at powers of two are defined in TLA+ as exact fixed-point/rational operators; TLC checks their laws (fraction in [0,1), add-then-subtract is the identity, subtraction stops at zero, order = order of ticks*Q+fraction, easing end points and monotonicity, clamp) on every case of a grid and emits the same cases as scenarios; the harness evaluates the real operators (ClockTime +/- f64/u64, partial_cmp, from_ticks_f64, Mapping::map, ClockSpeed::as_*, Semitones->PlaybackRate, Decibels::as_amplitude, Frame::panned) on them and TLC compares the table exactly. Beyond the grid, seeded boundary-biased samples (dyadic clock times on a 1/1024 grid, arbitrary f64 times up to 2^53 ticks, dense easing sweeps including real powers, sorted f32 sweeps of decibels and panning recorded as exact bit-pattern order keys) are judged by the same monitor for range, round trip, no-wrap, order, end points, case structure (0 dB = 1, <= -60 dB = 0, centre/hard-left/hard-right panning) and monotonicity.",
+    text="Clock-time arithmetic, Mapping::map clamping, integer-power easings (power 1..3) and ClockSpeed at powers of two are defined in TLA+ as exact fixed-point/rational operators; TLC checks their laws (fraction in [0,1), add-then-subtract is the identity, subtraction stops at zero, order = order of ticks*Q+fraction, easing end points and monotonicity, clamp) on every case of a grid and emits the same cases as scenarios; the harness evaluates the real operators (ClockTime +/- f64/u64, partial_cmp, from_ticks_f64, Mapping::map, ClockSpeed::as_*, Semitones->PlaybackRate, Decibels::as_amplitude, Frame::panned) on them and TLC compares the table exactly. Beyond the grid, seeded boundary-biased samples (dyadic clock times on a 1/1024 grid, arbitrary f64 times up to 2^53 ticks, dense easing sweeps including real powers, sorted f32 sweeps of decibels and panning recorded as exact bit-pattern order keys) are judged by the same monitor for range, round trip, no-wrap, order, end points, case structure (0 dB = 1, <= -60 dB = 0, centre/hard-left/hard-right panning) and monotonicity. Also: Tweenable::interpolate for ClockSpeed over all nine unit pairs on the dyadic grid (ends exact, monotone between), panning beyond both ends of its range, and the time read back from a clock's handle after one buffer at 1 - 2^-k ticks per buffer (fraction below 1 and exact).",
     note="Not an exhaustive-f32 result: decibels and panning are checked on a few thousand (quick) to a few hundred thousand (thorough) sorted inputs per run, not on all 2^32 bit patterns, and TLA+ cannot evaluate 10^(dB/20) or sqrt: agreement with the power law is checked only at multiples of 20 dB and through the constant-power identity left^2+right^2=2 (tolerance 6.3e-5). Real-power easings and semitone/clock-speed conversions at non-dyadic values are checked for end points, monotonicity and consistency residuals only. Exact table comparison covers the grid stated in spec/TimeArith_*.cfg; ticks above 2^20 are checked for fraction range, round trip and order only. When more is subtracted than the time holds the monitor demands only a well-formed result that is not later than the original (the statement says 'never wraps', not what the result is).")
 
 TWO30 = 1 << 30
